@@ -41,6 +41,14 @@ def main() -> int:
     from crosshair.statespace import MessageType
     from crosshair.util import add_to_pypath, load_file, set_debug
 
+    # CrossHair's weakref model runs gc.collect() on EVERY weakref dereference
+    # (to make weakref liveness deterministic). asyncio registers each task in a
+    # WeakSet whose removal callback dereferences a weakref, i.e. one full
+    # collection (~25 ms) per finished task: >50% of the run time. Nothing under
+    # test observes weakref liveness, so the collection is skipped.
+    import crosshair.libimpl.weakreflib as _wr
+
+    _wr.collect = lambda: None
     set_debug(a.verbose)
     t0 = time.process_time()
     stats: collections.Counter = collections.Counter()
